@@ -60,6 +60,124 @@ class Check:
                 "construct is no longer recognised; the property is undecided (fail closed)",
                 trivial=True)
 
+    # ---- a second view of the same program
+    def merge_view(self, other, self_aborted, other_aborted, known_keys=(), fn_paths=(), inline_info=None, direct_callers=None):
+        """`other` holds the obligations of the same rules run on the inlined view (lib/inline_mir.py): the same program with
+        its private helpers inlined into their callers, the helpers themselves no longer existing as functions.
+
+        * An obligation that fails here and holds there under the same key is discharged: a structural clause shown on either
+          view of the program holds for the program.
+        * An obligation that fails here and concerns a function F (the longest function path occurring in its key): let the
+          roots be F itself, or - if F is a helper that was dissolved into its callers - those callers.  If the other run
+          completed and, under the same rule, has obligations about every root and none of them fails, the obligation is
+          discharged: in that view the roots contain all of F's code, and the rule found nothing wrong with it there.
+        * If this run stopped at a missing anchor and the other one completed, the other run's obligations are taken instead
+          (a failing one is discharged when this run established the same key)."""
+        inline_info = inline_info or {"dissolved": [], "helpers_of": {}}
+        dissolved = set(inline_info.get("dissolved", []))
+        callers = {}
+        for root, hs in inline_info.get("helpers_of", {}).items():
+            for h in hs:
+                callers.setdefault(h, set()).add(root)
+        paths = sorted(set(fn_paths), key=len, reverse=True)
+
+        def attribute(key):
+            for p_ in paths:
+                if p_ in key:
+                    return p_
+            return None
+
+        direct_callers = direct_callers or {}
+
+        def roots_of(fn, rule):
+            """the functions that, in the inlined view, contain fn's code and about which `rule` has obligations there: fn's direct
+            callers; a caller the rule says nothing about (e.g. itself unreachable there because dissolved) is replaced by its own
+            direct callers.  None if some chain ends without such a function."""
+            out, seen = set(), set()
+            work = list(direct_callers.get(fn, ()))
+            if not work:
+                return None
+            while work:
+                x = work.pop()
+                if x in seen:
+                    continue
+                seen.add(x)
+                if by_fn.get((rule, x)):
+                    out.add(x)
+                elif x in dissolved and direct_callers.get(x):
+                    work.extend(direct_callers[x])
+                else:
+                    return None
+            return out
+        # several obligations may share a key (two sites of the same kind in one function): a key holds in a view only if
+        # every obligation under it holds there, and the other view must have at least as many of them
+        theirs, n_theirs, n_mine = {}, {}, {}
+        for o in other.obls:
+            k_ = (o["rule"], o["key"])
+            n_theirs[k_] = n_theirs.get(k_, 0) + 1
+            if k_ not in theirs or not o["ok"]:
+                theirs[k_] = o if (k_ not in theirs or theirs[k_]["ok"]) else theirs[k_]
+        for o in self.obls:
+            k_ = (o["rule"], o["key"])
+            n_mine[k_] = n_mine.get(k_, 0) + 1
+        for k_ in list(theirs):
+            if n_theirs[k_] < n_mine.get(k_, 0) and theirs[k_]["ok"]:
+                theirs[k_] = dict(theirs[k_], ok=False)
+        by_fn = {}
+        for o in other.obls:
+            by_fn.setdefault((o["rule"], attribute(o["key"])), []).append(o)
+        mine = {}
+        for o in self.obls:
+            k_ = (o["rule"], o["key"])
+            if k_ not in mine or not o["ok"]:
+                mine[k_] = o if (k_ not in mine or mine[k_]["ok"]) else mine[k_]
+        n = 0
+        if self_aborted and not other_aborted:
+            final = []
+            for o in other.obls:
+                m = mine.get((o["rule"], o["key"]))
+                if not o["ok"] and m is not None and m["ok"]:
+                    o = dict(m)
+                elif o["ok"]:
+                    o = dict(o, detail={"view": "inlined", "fact": o["detail"]})
+                    n += 1
+                final.append(o)
+            self.obls = final
+            for k, v in other.rules.items():
+                self.rules.setdefault(k, v)
+            self.fns |= other.fns
+        else:
+            for o in self.obls:
+                if o["ok"] or (self.pid, f'{o["rule"]}|{o["base_key"]}') in known_keys:
+                    continue
+                fn = attribute(o["key"])
+                t = theirs.get((o["rule"], o["key"]))
+                if t is not None and not (fn in dissolved and not t["ok"]):
+                    # (a failing obligation about a helper that is dead code in the inlined view says nothing there)
+                    if t["ok"]:
+                        o["ok"] = True
+                        o["detail"] = {"view": "inlined", "fact": t["detail"], "plain view": o["detail"]}
+                        n += 1
+                    continue
+                if fn is None or other_aborted:
+                    continue
+                if fn not in dissolved:
+                    # the same function exists in both views and the key is simply absent (or fails) there: not established
+                    continue
+                roots = roots_of(fn, o["rule"])
+                good = bool(roots)
+                for r in roots or ():
+                    obs = by_fn.get((o["rule"], r), [])
+                    if not obs or any(not x["ok"] for x in obs):
+                        good = False
+                if good:
+                    o["ok"] = True
+                    o["detail"] = {"view": "inlined", "fact": f"{fn} is inlined into {sorted(roots)}; rule {o['rule']} holds for them in that view", "plain view": o["detail"]}
+                    n += 1
+        self.extra["discharged_on_inlined_view"] = n
+        if n:
+            self.info(f"{n} obligation(s) discharged on the inlined view (private helpers inlined into their callers)")
+
     # ---- finishing
     @staticmethod
     def evidence_dir():
